@@ -170,7 +170,8 @@ def coq_eval(name, preamble, exprs, timeout=900, chunk=400):
     while pending or running:
         while pending and len(running) < NPROC:
             p = pending.pop(0)
-            running.append((p, subprocess.Popen(["coqc", "-Q", COQ, "V", "-w", "none", p], cwd=d, stdout=subprocess.PIPE, stderr=subprocess.STDOUT, text=True)))
+            # output goes to a file: a pipe nobody reads until exit blocks coqc once 64 KiB are printed
+            running.append((p, subprocess.Popen(["coqc", "-Q", COQ, "V", "-w", "none", p], cwd=d, stdout=open(p[:-2] + ".out", "w"), stderr=subprocess.STDOUT, text=True)))
         still = []
         for p, pr in running:
             if pr.poll() is None:
@@ -179,7 +180,8 @@ def coq_eval(name, preamble, exprs, timeout=900, chunk=400):
                     raise RuntimeError("coq_eval timeout on " + p)
                 still.append((p, pr))
             else:
-                outs[p] = (pr.returncode, pr.stdout.read())
+                with open(p[:-2] + ".out") as fh:
+                    outs[p] = (pr.returncode, fh.read())
         running = still
         if running:
             time.sleep(0.05)
@@ -198,7 +200,7 @@ def coq_eval(name, preamble, exprs, timeout=900, chunk=400):
             elif cur is not None:
                 buf.append(line.strip())
     for p in paths:
-        for ext in (".v", ".vo", ".vok", ".vos", ".glob"):
+        for ext in (".v", ".vo", ".vok", ".vos", ".glob", ".out"):
             try:
                 os.remove(p[:-2] + ext)
             except OSError:
